@@ -425,8 +425,9 @@ var (
 	}
 )
 
-// statGenSignedZeros makes the generator produce zero measurements of either sign (a check whose
-// oracle does not depend on which zero a median or a most frequent value is sets it).
+// statGenSignedZeros makes the generator produce zero measurements of either sign and NaN
+// measurements (a check whose oracle does not depend on which zero a median or a most frequent
+// value is, nor on what the statistics of a sample with a NaN are, sets it).
 var statGenSignedZeros bool
 
 func genStatValue(t *rapid.T, center float64, constant bool) float64 {
@@ -434,6 +435,9 @@ func genStatValue(t *rapid.T, center float64, constant bool) float64 {
 		return center
 	}
 	if statGenSignedZeros && vcase.OneIn(t, 6, "signedzero") {
+		if vcase.OneIn(t, 4, "nanvalue") {
+			return math.NaN() // "NaN" is a number the format accepts
+		}
 		return math.Copysign(0, float64(rapid.IntRange(-1, 1).Draw(t, "zerosign")))
 	}
 	if vcase.OneIn(t, 30, "zero") {
